@@ -4,6 +4,7 @@
 #include <string.h>
 #include <stdexcept>
 #include "song.h"
+#include "input.h"
 #include "vgm.h"
 #include "driver.h"
 #include "track.h"
@@ -406,6 +407,14 @@ std::vector<uint8_t> Platform::vgm_export(Song& song, unsigned int max_seconds, 
 	if(!looped_or_finished)
 		vgm.delay(max_time-elapsed_time);
 	vgm.stop();
-	vgm.write_tag(get_tags(song));
+	try
+	{
+		vgm.write_tag(get_tags(song));
+	}
+	catch(std::range_error&)
+	{
+		// thrown by the UTF-8 to UTF-16 conversion of the GD3 strings
+		throw InputError(nullptr, "a song tag (#title, #composer, ...) is not valid UTF-8");
+	}
 	return vgm.get_buffer();
 }
